@@ -587,6 +587,9 @@ func (d *V2) put(cmd *Cmd) (o Outcome) {
 
 func (d *V2) get(cmd *Cmd) (o Outcome) {
 	in := &dynamodb.GetItemInput{TableName: aws.String(cmd.T), Key: itemToV2(fullKey(cmd))}
+	if pe, names := projection(cmd); pe != "" {
+		in.ProjectionExpression, in.ExpressionAttributeNames = aws.String(pe), names
+	}
 	d.keepIn(cmd.ID, "Key", in.Key)
 	out, err := d.cl.GetItem(bg, in)
 	d.classify(err, &o)
@@ -751,6 +754,9 @@ func (d *V2) batchGet(cmd *Cmd) (o Outcome) {
 		k := itemToV2(g.Key)
 		d.keepIn(cmd.ID, fmt.Sprintf("gets[%d].Key", i), k)
 		ka.Keys = append(ka.Keys, k)
+		if pe, names := projection(cmd); pe != "" {
+			ka.ProjectionExpression, ka.ExpressionAttributeNames = aws.String(pe), names
+		}
 		req[g.T] = ka
 	}
 	out, err := d.cl.BatchGetItem(bg, &dynamodb.BatchGetItemInput{RequestItems: req})
